@@ -11,9 +11,12 @@ MANIFEST = {
             "increasing in id, the i-th vector entry is found at the i-th advertised path (structural paths and tuple members; every advertised "
             "path is classified) and at every structural path of the i-th parameter, constants untouched, "
             "derived and tuple values (members of every kind) computed from the same assignment, a unary node contributes exactly its operand's "
-            "parameters and holds op(operand value), subtraction as built (a + (-b)), frame property, vector / unit-vector / path routes agree "
-            "(any choice of paths, last entry wins); tied to the code by a "
-            "bit-exact vm_compute correspondence on generated composition programs (two-sided abstraction) and a direct property oracle",
+            "parameters and holds op(operand value), subtraction as built (a + (-b)), % and // with Python's meaning (CPython's binary64 algorithm; "
+            "over Q the remainder has the sign of the divisor), frame property, vector / unit-vector / path routes agree "
+            "(any choice of paths, last entry wins), items of a collection addressed by name at whatever position (item order irrelevant; "
+            "numeric names are not positions); tied to the code by a "
+            "bit-exact vm_compute correspondence on generated composition programs (two-sided abstraction; second sweep: object_for_path at every "
+            "advertised path and the instance accessors vs prior_at / lookup) and a direct property oracle",
     "note": "Trusted: Coq kernel + vm_compute; the harness's raw __dict__ abstraction of live model objects and instances; the "
             "composition API itself is compared with the generator's expected tree. Not modelled: AnnotationPriorModel, deferred "
             "arguments, Array models, the arithmetic forms ** // % and af.Log / af.Log10 (no exact value semantics: oracle only; "
@@ -182,7 +185,8 @@ def gen_cases(ctx, n):
         ext = rng.random() < 0.75      # a quarter of the programs stay in the original (ModelTree-only) shapes
         g = MG.Gen(rng, max_depth=2 if ctx.tier == "quick" else 4, big_tuples=True, arrays=True,
                    families=("uniform", "uniform", "uniform", "gaussian", "loguniform"),
-                   tuple_member_kinds=ext, underscore_classes=ext, more_ops=ext, more_forms=ext, defaults=ext, log_ops=ext)
+                   tuple_member_kinds=ext, underscore_classes=ext, more_ops=ext, more_forms=ext, defaults=ext, log_ops=ext,
+                   numeric_names=ext)
         prog = g.program()
         if len(prog["pool"]) > 40:
             continue
@@ -357,6 +361,32 @@ def program_path_kind(root, path):
     return "arith" if cur["t"] in ("arith", "unary") else kind
 
 
+def program_prior_at(root, path):
+    """Pool index of the prior the PROGRAM has at a path (components looked up by NAME), None if there is none or the
+    path enters an arithmetic prior (operand names are not the program's)."""
+    cur = root
+    for k in path:
+        t = cur["t"]
+        if t == "model":
+            nxt = cur["kw"].get(k)
+            if nxt is None:
+                nxt = dict((a, b) for a, b in cur.get("extra", [])).get(k)
+        elif t == "coll":
+            nxt = dict((str(a), b) for a, b in MG.resolve_copies(cur)["items"]).get(k)
+        elif t == "tuple":
+            idx = MG.member_index(k)
+            nxt = cur["members"][idx] if idx < len(cur["members"]) else None
+        elif t == "array":
+            keys = MG.array_keys(cur["shape"])
+            nxt = cur["elems"][keys.index(k)] if k in keys else None
+        else:
+            nxt = None
+        if nxt is None:
+            return None
+        cur = nxt
+    return cur["ref"] if cur["t"] == "prior" else None
+
+
 def oracle(c, r, root, vec_hex, unit_hex, stats, skip_inst=False):
     """The property, stated on the implementation's observables and the program (independent of the Coq model).
     Returns the first violated clause or None; stats (a dict) counts what was compared."""
@@ -375,11 +405,25 @@ def oracle(c, r, root, vec_hex, unit_hex, stats, skip_inst=False):
         return "priors_ordered_by_id is not creation order: %s" % r["ids"]
     if len(r["upaths"]) != n:
         return "unique_prior_paths has %d entries for %d parameters" % (len(r["upaths"]), n)
-    if not r["paths_resolve"]:
-        return "an advertised path does not resolve to its prior"
     for p in r["upaths"]:
         if p not in r["paths"]:
             return "unique path %s is not among paths" % ".".join(p)
+    # every advertised path names (component by component, by NAME) the parameter it is advertised for, and that is the
+    # parameter a value supplied at the path is given to -- also when the path is handed back as strings
+    for p, adv, got_tuple, got_str, got_item in r.get("resolve", []):
+        kind = program_path_kind(root, p)
+        if kind not in (None, "arith") and program_prior_at(root, p) != adv:
+            return "path %s is advertised for parameter %s, the composition has parameter %s there" % (
+                ".".join(p), adv, program_prior_at(root, p))
+        if got_tuple != adv or got_str != adv:
+            return "a value supplied at the advertised path %s of parameter %s goes to %s (path as advertised) / %s (path as strings); " \
+                   "-1: not a parameter, -2: raised" % (".".join(p), adv, got_tuple, got_str)
+        if got_item != adv:
+            return "walking the model along the advertised path %s of parameter %s with collection[name] / getattr finds %s; " \
+                   "-1: not a parameter, -2: raised" % (".".join(p), adv, got_item)
+        stats["path-resolution:compared"] = stats.get("path-resolution:compared", 0) + 1
+    if not r["paths_resolve"]:
+        return "an advertised path does not resolve to its prior"
     if skip_inst:
         return None
     if "exc" in r["inst"]:
@@ -401,6 +445,14 @@ def oracle(c, r, root, vec_hex, unit_hex, stats, skip_inst=False):
             return "value %d (%r) is not at advertised path %s (found %r)" % (i, vlist[i], ".".join(p), unhex(got["v"]))
     if not same_inst(exp, inst):
         return "instance_from_vector differs from the instance the composition denotes"
+    # ... also through the public accessors of the live instance (instance[name] and getattr on collections)
+    for i, (p, by_item, by_attr) in enumerate(r.get("acc", [])):
+        if program_path_kind(root, p) in ("structural", "tuple"):
+            for how, got in (("instance[name]", by_item), ("getattr", by_attr)):
+                if got is None or unhex(got) != vlist[i]:
+                    return "value %d (%r) is not found at advertised path %s through %s (found %s)" % (
+                        i, vlist[i], ".".join(p), how, None if got is None else unhex(got))
+            stats["accessor-paths:compared"] = stats.get("accessor-paths:compared", 0) + 1
     for name in ("inst_paths", "inst_paths_any"):
         if "exc" in r[name]:
             return "%s raised %s" % (name, r[name]["exc"])
@@ -438,10 +490,10 @@ def oracle(c, r, root, vec_hex, unit_hex, stats, skip_inst=False):
     return None
 
 
-def coq_case(r, vec_hex, cmp_inst=True):
+def coq_case(r, vec_hex, cmp_inst=True, cmp_unit=True):
     tree = r["tree"]
     fl = lambda xs: clist([cfloat(unhex(x)) for x in xs])
-    unit_ok = cmp_inst and "ok" in r["vec_from_unit"] and "ok" in r["inst_unit"]
+    unit_ok = cmp_inst and cmp_unit and "ok" in r["vec_from_unit"] and "ok" in r["inst_unit"]
     return ("{| c_tree := %s; c_vec := %s; c_paths := %s; c_upaths := %s; c_count := %s; c_ids := %s; "
             "c_inst := %s; c_pv := %s; c_inst_paths := %s; c_unit_vec := %s; c_inst_unit := %s; "
             "c_cmp_inst := %s |}") % (
@@ -524,21 +576,39 @@ def tree_features(t, acc=None, under=None):
     return acc
 
 
-def eval_codes(ctx, header, terms, shard=40):
+def coq_rcase(r, vec_hex, root):
+    """Second correspondence record (Resolve.rcase): what object_for_path resolves at every advertised path (as
+    advertised / as strings) and what the public accessors return at the structural unique paths."""
+    opt = lambda x: "(Some %s)" % cnat(x) if x >= 0 else "None"
+    res = []
+    for p, adv, got_tuple, got_str, got_item in r.get("resolve", []):
+        for g in sorted({got_tuple, got_str, got_item}):
+            res.append("(%s, %s)" % (MG.coq_path(p), opt(g)))
+    acc = []
+    for p, by_item, by_attr in r.get("acc", []):
+        if program_path_kind(root, p) == "structural":
+            for g in (by_item, by_attr):
+                if g is not None:
+                    acc.append("(%s, %s)" % (MG.coq_path(p), cfloat(unhex(g))))
+    return "{| r_tree := %s; r_vec := %s; r_resolve := %s; r_access := %s |}" % (
+        MG.coq_node(r["tree"]), clist([cfloat(unhex(x)) for x in vec_hex]), clist(res), clist(acc))
+
+
+def eval_codes(ctx, header, terms, shard=40, typ="case", fn=None, tag="C01", obligation="correspondence:cases"):
     """One vm_compute sweep: per case a code  1*(check_case fails) + 2*(wfb fails) + 4*(wfb2 fails)."""
     import re
     import subprocess
-    fn = ("(fun c => ((if check_case c then 0 else 1) + (if wfb float (c_tree c) then 0 else 2) + "
-          "(if wfb2 float fbits_eqb (c_tree c) then 0 else 4))%N)")
+    fn = fn or ("(fun c => ((if check_case c then 0 else 1) + (if wfb float (c_tree c) then 0 else 2) + "
+                "(if wfb2 float fbits_eqb (c_tree c) then 0 else 4))%N)")
     os.makedirs(ctx.rundir, exist_ok=True)
     shards = [terms[i:i + shard] for i in range(0, len(terms), shard)] or [[]]
     procs = []
     for si, sh_cases in enumerate(shards):
-        vf = os.path.join(ctx.rundir, "cases_C01_%d.v" % si)
+        vf = os.path.join(ctx.rundir, "cases_%s_%d.v" % (tag, si))
         with open(vf, "w") as f:
             f.write(header + "\n")
-            f.write("Definition the_cases : list case :=\n [\n  " + ";\n  ".join(sh_cases) + "\n ].\n")
-            f.write('Redirect "%s/cases_C01_%d" Eval vm_compute in (map %s the_cases).\n' % (ctx.rundir, si, fn))
+            f.write("Definition the_cases : list %s :=\n [\n  " % typ + ";\n  ".join(sh_cases) + "\n ].\n")
+            f.write('Redirect "%s/cases_%s_%d" Eval vm_compute in (map %s the_cases).\n' % (ctx.rundir, tag, si, fn))
         procs.append((si, vf))
     codes, logs = [], []
     running = []
@@ -555,7 +625,7 @@ def eval_codes(ctx, header, terms, shard=40):
         if pr.returncode != 0:
             logs.append("shard %d: rc=%d\n%s" % (si, pr.returncode, out[-2000:]))
             continue
-        txt = open(os.path.join(ctx.rundir, "cases_C01_%d.out" % si)).read()
+        txt = open(os.path.join(ctx.rundir, "cases_%s_%d.out" % (tag, si))).read()
         m = re.search(r"=\s*(.*?)\s*:\s*list N", txt, re.S)
         if not m:
             logs.append("shard %d: unparsed %s" % (si, txt[:300]))
@@ -565,13 +635,13 @@ def eval_codes(ctx, header, terms, shard=40):
     ctx.corr["cases"] += len(terms)
     ctx.corr["shards"] += len(shards)
     if logs or any(len(results.get(si, [])) != len(sh) for si, sh in enumerate(shards)):
-        ctx.obligation("correspondence:cases", "correspondence", False, ("\n".join(logs) or "case count mismatch")[-900:])
+        ctx.obligation(obligation, "correspondence", False, ("\n".join(logs) or "case count mismatch")[-900:])
         return None
     for si in range(len(shards)):
         codes += results[si]
     bad = [i for i, x in enumerate(codes) if x & 1]
     ctx.corr["disagreements"] += len(bad)
-    ctx.obligation("correspondence:cases", "correspondence", not bad,
+    ctx.obligation(obligation, "correspondence", not bad,
                    "%d/%d cases disagree" % (len(bad), len(terms)) if bad else "%d cases agree" % len(terms))
     return codes
 
@@ -619,6 +689,7 @@ def run(ctx):
         for j, r in enumerate(o["results"]):
             results[ci + j * common.NCPU] = r
     coq_cases, coq_idx = [], []
+    coq_rcases, coq_ridx = [], []
     stats = {}
     failed_cases = set()
     _failure = ctx.failure
@@ -670,7 +741,8 @@ def run(ctx):
             if msg:
                 ctx.oracle["failures"] += 1
                 ctx.failure("oracle", "[%s] %s" % (phase, msg), c, classes=cls,
-                            impl={k: ro[k] for k in ("paths", "upaths", "count", "ids", "inst", "pv", "inst_paths_any", "vec_from_unit", "inst_unit")})
+                            impl={k: ro.get(k) for k in ("paths", "upaths", "count", "ids", "inst", "pv", "inst_paths", "inst_paths_any", "vec_from_unit",
+                                                        "inst_unit", "resolve", "acc")})
             if not MG.tree_ok_for_model(ro["tree"]):
                 ctx.hist("coq-correspondence", "not sent: array / ** / Log / Log10 / reserved attribute name")
                 if any_node(root, lambda e_: e_["t"] == "unary" and e_["op"] in ("log", "log10")):
@@ -680,13 +752,21 @@ def run(ctx):
                 continue
             for f_ in sorted(tree_features(ro["tree"])):
                 ctx.hist("coq-correspondence:unary-features", f_)
+            coq_rcases.append(coq_rcase(ro, vec_hex, root))
+            coq_ridx.append((i, phase))
             ok_inst = "ok" in ro["inst"] and "ok" in ro["inst_paths_any"]
             if dz or not ok_inst:
                 coq_cases.append(coq_case(ro, vec_hex, cmp_inst=False))
                 coq_idx.append((i, phase))
                 ctx.hist("coq-correspondence", "advertised order / count only (no instance)")
             else:
-                coq_cases.append(coq_case(ro, vec_hex))
+                # a zero divisor among the values the priors return for the unit vector: the code computes with numpy floats
+                # there (inf / nan instead of ZeroDivisionError) -- outside the modelled domain, as in the oracle
+                dzu = "ok" in ro["vec_from_unit"] and has_division_by_zero(
+                    root, dict(zip(refs, [unhex(x) for x in ro["vec_from_unit"]["ok"]])))
+                if dzu:
+                    ctx.hist("coq-correspondence", "unit instance not compared (division by zero on the priors' values)")
+                coq_cases.append(coq_case(ro, vec_hex, cmp_unit=not dzu))
                 coq_idx.append((i, phase))
                 ctx.hist("coq-correspondence", "full")
         if i % 40 == 0:
@@ -708,6 +788,18 @@ def run(ctx):
                 ctx.failure("correspondence", "[%s] Coq model and implementation disagree" % phase, cases[i],
                             classes=classes_of(cases[i]), impl=results[i]["ok"],
                             broken={"kind": "correspondence", "name": "C01.check_case"}, found_input=False)
+        if os.path.exists(os.path.join(common.COQ, "C01", "Resolve.vo")):
+            # second sweep: object_for_path at every advertised path / accessors of the built instance vs prior_at / lookup
+            rcodes = eval_codes(ctx, ctx.header(["Common.PyFloat", "ModelTree", "Model", "Resolve"]), coq_rcases, typ="rcase",
+                                fn="(fun c => (if check_rcase c then 0 else 1)%N)", tag="C01r", obligation="correspondence:path-resolution")
+            for b in [j for j, x in enumerate(rcodes or []) if x & 1][:5]:
+                i, phase = coq_ridx[b]
+                failed_cases.add(i)
+                ctx.failure("correspondence", "[%s] Coq model and implementation disagree on what a path resolves to (object_for_path / "
+                            "instance accessors vs prior_at / lookup)" % phase, cases[i], classes=classes_of(cases[i]), impl=results[i]["ok"],
+                            broken={"kind": "correspondence", "name": "C01.check_rcase"}, found_input=False)
+        else:
+            ctx.obligation("correspondence:path-resolution", "correspondence", False, "Resolve.vo not built")
     else:
         ctx.obligation("correspondence:cases", "correspondence", False, "Model.vo not built")
     ctx.failure = _failure
